@@ -354,6 +354,78 @@ example :
     (nextRow exMod { exPlaying with row := 5, frame := 6, loopDest := 40 }).map (fun s => (s.ord, s.row, s.numRows, s.loopDest)) =
       some (2, 0, 64, -1) := by decide
 
+/-! ### Mode / timing switches while playing (xmp_set_player MODE, CFLAGS)
+
+`xmp_set_player(ctx, XMP_PLAYER_MODE, v)` and a `XMP_PLAYER_CFLAGS` change of the vblank flag rescan
+the module: sequences, entry points, sequence labels, order info, the marker quirk change; the
+order list and the patterns do not (`SameSong`).  The player state keeps everything but
+`p->sequence`, which is reset to 0 when the rescan found fewer sequences (`Seq.rescanFix`). -/
+
+/-- **C16_inv_mode_switch**: the boundary invariant and the row invariant survive a rescan to ANY
+well-formed scan of the same song (any number of sequences, e.g. fewer than before) with the
+sequence fix-up; in particular the sequence index is valid for the NEW sequence table. -/
+theorem C16_inv_mode_switch {m m' : SeqMod} (h' : WF m') (ss : SameSong m m') {s : St} (hc : Core m s) (hr : RowInv m s) :
+    Core m' (rescanFix m' s) ∧ RowInv m' (rescanFix m' s) ∧
+    0 ≤ (rescanFix m' s).sequence ∧ (rescanFix m' s).sequence < m'.numSeq := by
+  obtain ⟨a, b⟩ := rescan_spec h'.facts ss hc
+  exact ⟨a, b hr, a.seq.1, a.seq.2⟩
+
+/-- histories in which the module's scan tables may be replaced (mode / timing switches) -/
+inductive CallM where
+  | frame (eA eB : Eff)
+  | ctl (c : Ctl)
+  | rescan (m' : SeqMod)
+
+/-- (module in force, state) after every successful frame -/
+def framesM : SeqMod → St → List CallM → List (SeqMod × St)
+  | _, _, [] => []
+  | m, s, .frame a b :: rest =>
+    match playFrame m s a b with
+    | .ok s' => (m, s') :: framesM m s' rest
+    | .fin => framesM m s rest
+    | .diverge => []
+  | m, s, .ctl c :: rest => framesM m (ctl m s c) rest
+  | _, s, .rescan m' :: rest => framesM m' (rescanFix m' s) rest
+
+def HistMOk : SeqMod → List CallM → Prop
+  | _, [] => True
+  | m, .frame a b :: rest => EffOk a ∧ EffOk b ∧ HistMOk m rest
+  | m, .ctl _ :: rest => HistMOk m rest
+  | m, .rescan m' :: rest => WF m' ∧ SameSong m m' ∧ HistMOk m' rest
+
+/-- **C16_reachable_modes** (`C16_reachable` for histories with mode / timing switches between the
+frames and position-control calls): after every successful frame the state is `Playing` for the
+module tables then in force — in particular `sequence < num_sequences` of the CURRENT scan — and
+satisfies the row invariant. -/
+theorem C16_reachable_modes : ∀ (hist : List CallM) (m : SeqMod) (s : St), WF m → Core m s → RowInv m s → HistMOk m hist →
+    ∀ ms ∈ framesM m s hist, WF ms.1 ∧ Playing ms.1 ms.2 ∧ RowInv ms.1 ms.2 ∧ ms.2.ftBpm = ms.2.bpm := by
+  intro hist
+  induction hist with
+  | nil => intro m s _ _ _ _ ms hms; simp [framesM] at hms
+  | cons c rest ih =>
+    intro m s h hc hr he ms hms
+    cases c with
+    | frame a b =>
+      obtain ⟨ea, eb, er⟩ := he
+      unfold framesM at hms
+      split at hms
+      · rename_i s1 hf
+        obtain ⟨p1, r1, f1⟩ := C16_inv_frame h hc hr ea eb hf
+        rcases List.mem_cons.mp hms with e | e
+        · subst e; exact ⟨h, p1, r1, f1⟩
+        · exact ih m s1 h p1.core r1 er ms e
+      · exact ih m s h hc hr er ms hms
+      · simp at hms
+    | ctl c =>
+      unfold framesM at hms
+      obtain ⟨c1, r1⟩ := C16_inv_control h hc hr c
+      exact ih m _ h c1 r1 he ms hms
+    | rescan m' =>
+      obtain ⟨h', ss, er⟩ := he
+      unfold framesM at hms
+      obtain ⟨c1, r1, _⟩ := C16_inv_mode_switch h' ss hc hr
+      exact ih m' _ h' c1 r1 er ms hms
+
 /-! ### xmp_play_buffer: a call plays zero or more frames and nothing else
 
 `Seq.playBuffer m loop s effs` is the sequencer side of `xmp_play_buffer(ctx, out, size, loop)`:
@@ -530,6 +602,20 @@ def exMark : SeqMod :=
                scanRow := [0, 0], scanNum := [1, 1], oSpeed := List.replicate 256 6, oBpm := List.replicate 256 125 }
 
 example : WF exMark ∧ OrdWF exMark := by unfold WF OrdWF; decide +kernel
+
+/-- the marker module `exMark` has two sequences; playing its second sequence (order 4), a switch to
+a mode without markers rescans the same song into ONE sequence (`exMark1`): the index 1, equal to
+the new count, is reset to 0 — the witness of the seeded defect "`>` instead of `>=`" -/
+def exMark1 : SeqMod :=
+  { exMark with marker := false, seqCtl := List.replicate 5 0 ++ List.replicate 251 0xff, numSeq := 1, entry := [0],
+                scanOrd := [1], scanRow := [0], scanNum := [1] }
+
+example :
+    let s : St := { exStart with ord := 4, pos := 4, sequence := 1, numRows := 16 }
+    WF exMark1 ∧ SameSong exMark exMark1 ∧ Core exMark s ∧ (rescanFix exMark1 s).sequence = 0 := by
+  refine ⟨by unfold WF; decide +kernel, ⟨rfl, rfl, rfl, rfl⟩, ?_, by decide⟩
+  exact ⟨by decide, by decide, by decide, by decide, by decide, by decide, by decide, by decide, by decide, by decide, by decide⟩
+
 
 /-- from order 4 of sequence 1 the loop wraps to the entry point 3 (a 0xfe marker) and stops on
 order 4: two iterations; from order 1 of sequence 0 it meets the end marker at order 2, wraps to
